@@ -175,12 +175,12 @@ def worker_footprint(seed, tier):
             r.arr = rv
             args[pos] = rv
             state['rec'] = r
-            saved = intersection.np
-            intersection.np = NpShim()
+            saved = intersection.np, baselist.np
+            intersection.np = baselist.np = NpShim()
             try:
                 out = fn(*args)
             finally:
-                intersection.np = saved
+                intersection.np, baselist.np = saved
                 state['rec'] = None
             finish(r, np.asarray(res).tolist())
             return out
@@ -373,14 +373,16 @@ def large_suite(n, seed, repeats=3):
     sample = rs.randint(0, n, 40)
 
     def run(name, fn, canon=lambda r: _floats(np.asarray(r))):
-        got = [canon(fn()) for _ in range(repeats)]
+        """`repeats` runs; returns the first result"""
+        first = fn()
+        got = [canon(first)] + [canon(fn()) for _ in range(repeats - 1)]
         digests[name] = got[0]
         if len(set(got)) != 1:
             unstable.append(name)
+        return first
 
     for kind, arr in arrs.items():
-        run(f'large:intersects_bounds:{kind}', lambda a=arr: a.intersects_bounds(box))
-        res = np.asarray(arr.intersects_bounds(box))
+        res = np.asarray(run(f'large:intersects_bounds:{kind}', lambda a=arr: a.intersects_bounds(box)))
         if not (0 < int(res.sum()) < n):
             scalar_bad.append(f'intersects_bounds:{kind}: the box is not a mixed hit/miss case ({int(res.sum())}/{n})')
         inds = rs.randint(0, n, n // 2).astype('int64')
@@ -388,8 +390,8 @@ def large_suite(n, seed, repeats=3):
         run(f'large:bounds:{kind}', lambda a=arr: a.bounds)
         run(f'large:total_bounds:{kind}', lambda a=arr: np.asarray(a.total_bounds, dtype=float))
         if kind != 'point':
-            run(f'large:length:{kind}', lambda a=arr: a.length)
-            run(f'large:area:{kind}', lambda a=arr: a.area)
+            ln = np.asarray(run(f'large:length:{kind}', lambda a=arr: a.length))
+            ar = np.asarray(run(f'large:area:{kind}', lambda a=arr: a.area))
         # the scalar form on a sample
         for i in sample:
             el = arr[int(i)]
@@ -397,7 +399,6 @@ def large_suite(n, seed, repeats=3):
                 scalar_bad.append(f'intersects_bounds:{kind}[{int(i)}]')
                 break
         if kind != 'point':
-            ln, ar = np.asarray(arr.length), np.asarray(arr.area)
             for i in sample[:15]:
                 el = arr[int(i)]
                 if float(el.length) != float(ln[i]) or float(el.area) != float(ar[i]):
@@ -415,11 +416,12 @@ def large_suite(n, seed, repeats=3):
         'multipolygon': MultiPolygon([[[0.0, 0.0, 400.0, 0.0, 400.0, 400.0, 0.0, 400.0, 0.0, 0.0]],
                                       [[500.0, 500.0, 990.0, 500.0, 990.0, 990.0, 500.0, 990.0, 500.0, 500.0]]]),
     }
-    inds = rs.randint(0, n, n // 2).astype('int64')
+    # (numba launches a nested parallel region per point for the multipoint / line kernels, which
+    # is slow with many threads: the inds variant uses a short index list)
+    inds = rs.randint(0, n, 4000).astype('int64')
     for nm, sh in shapes.items():
-        run(f'large:point.intersects:{nm}', lambda s=sh: pts.intersects(s))
+        res = np.asarray(run(f'large:point.intersects:{nm}', lambda s=sh: pts.intersects(s)))
         run(f'large:point.intersects[inds]:{nm}', lambda s=sh: pts.intersects(s, inds=inds))
-        res = np.asarray(pts.intersects(sh))
         if not (0 < int(res.sum()) < n):
             scalar_bad.append(f'point.intersects:{nm}: not a mixed hit/miss case ({int(res.sum())}/{n})')
         for i in sample:
